@@ -55,6 +55,19 @@ theorem C11_fn_tracker_restore_listener {Headers Network Key L PublicKey V : Typ
         simp only [List.filter, hb, Rs.omapGet, h, if_false]
         exact ih
 
+/-- **C11_fn_tracker_getters**: the getters through which `ChainTrackerEntry::from` (and the restore comparison) read a
+    tracker — `tip()`, `headers()`, `height()` — are the fields `ChainTracker::restore` fills (`C11_fn_tracker_restore`): what is
+    persisted of a restored tracker is what was restored. -/
+theorem C11_fn_tracker_getters {Headers Network Key L PublicKey V : Type}
+    (headers : List Headers) (tip : Headers) (height : Nat) (network : Network)
+    (listeners : List (Key × (L × ListenSlot))) (node_id : PublicKey) (vf : V) (oracle : List PublicKey)
+    (t : ChainTracker Headers Network Key L PublicKey V) :
+    t.tip_fn = t.tip ∧ t.headers_fn = t.headers ∧ t.height_fn = t.height ∧
+    (ChainTracker.restore headers tip height network listeners node_id vf oracle).tip_fn = tip ∧
+    (ChainTracker.restore headers tip height network listeners node_id vf oracle).headers_fn = headers ∧
+    (ChainTracker.restore headers tip height network listeners node_id vf oracle).height_fn = height :=
+  ⟨rfl, rfl, rfl, rfl, rfl, rfl⟩
+
 /-! ## `BackupPersister` (vls-persist/src/backup_persister.rs), translated from the source on every run
 
 Target list `translate/fn_targets/Backup.b1012.json`.  The two underlying persisters are generic (`M`, `B : Persist`);
@@ -493,4 +506,68 @@ example : KVVPersister.get_channel (SelfT := Unit) (PublicKey := Nat) (ChannelId
     = .ok { channel_value_satoshis := 1000, channel_setup := some ⟨1000⟩, id := some 6, enforcement_state := 77, blockheight := none } := rfl
 
 end Kvv
+
+/-! ### The node state, end to end: `NodeStateEntry::from` (model.rs) → `update_node` → store → `get_nodes` -/
+section NodeEndToEnd
+open VlsModel.Gen
+
+/-- **C11_fn_node_state_entry_from**: `NodeStateEntry::from(&NodeState)` as it is in the source now stores the invoices, the
+    issued invoices, both velocity controls (each converted by `VelocityControl::from`, each in its own field), the known
+    preimages of the payments and the channel-id high-water mark — none dropped, defaulted or swapped.  (The three
+    map traversals are declared externals of the maps; the fields of `NodeState` read here are a declared view.) -/
+theorem C11_fn_node_state_entry_from {IM PM PS : Type} (ie : IM → List (List Nat × PS)) (pre : PM → List (List Nat))
+    (st : FnPersistModel.NodeState IM PM) :
+    FnPersistModel.NodeStateEntry.«from» ie pre st =
+      { invoices := ie st.invoices, issued_invoices := ie st.issued_invoices,
+        velocity_control := FnPersistModel.VelocityControl.«from» st.velocity_control,
+        fee_velocity_control := FnPersistModel.VelocityControl.«from» st.fee_velocity_control,
+        preimages := pre st.payments, dbid_high_water_mark := st.dbid_high_water_mark } := rfl
+
+/-- the persisted control / state entry of area `PersistModel` (unit model.rs) seen in area `KvvPersist` (unit kvv.rs): the same
+    Rust structs, generated once per unit; field-by-field copies -/
+def vcK (v : FnPersistModel.VelocityControl) : FnKvvPersist.VelocityControl :=
+  { start_sec := v.start_sec, bucket_interval := v.bucket_interval, buckets := v.buckets, limit := v.limit }
+def coreP (c : FnKvvPersist.CoreVelocityControl) : FnPersistModel.CoreVelocityControl :=
+  { start_sec := c.start_sec, bucket_interval := c.bucket_interval, buckets := c.buckets, limit := c.limit }
+def entryK {PS : Type} (e : FnPersistModel.NodeStateEntry PS) : FnKvvPersist.NodeStateEntry PS :=
+  { invoices := e.invoices, issued_invoices := e.issued_invoices, velocity_control := vcK e.velocity_control,
+    fee_velocity_control := vcK e.fee_velocity_control, preimages := e.preimages, dbid_high_water_mark := e.dbid_high_water_mark }
+
+/-- **C11_fn_node_end_to_end** (`restore ∘ persist` for the whole node state, both conversions and the persister code
+    translated from the source): after `update_node(state)`, with the store answering the state key with what was put and
+    the format decoding what it encoded, `get_nodes` restores the node as
+    `NodeState::restore(invoice pairs, issued-invoice pairs, preimages, 0, velocity_control, fee_velocity_control,
+    dbid_high_water_mark, allowlist)` of **the running state's own** controls and high-water mark: the two controls come
+    back equal to the ones in memory (`CoreVelocityControl::from ∘ VelocityControl::from = id`), in their own positions. -/
+theorem C11_fn_node_end_to_end {SelfT PublicKey Network Allowable IM PM PS : Type}
+    (sz : PublicKey → List Nat) (mk : String → List Nat → String)
+    (put : String → List Nat → Rs.M Unit) (get : String → Rs.M (Option (Nat × List Nat))) (self : SelfT)
+    (getp : String → Rs.M (List (String × (Nat × List Nat)))) (suffix : String → String → Rs.M (List Nat))
+    (fromSlice : List Nat → Option PublicKey) (deNode : List Nat → Rs.M FnKvvPersist.NodeEntry)
+    (ser : FnKvvPersist.NodeStateEntry PS → Rs.M (List Nat)) (deState : List Nat → Rs.M (FnKvvPersist.NodeStateEntry PS))
+    (parse : String → Rs.M Network) (ral : PublicKey → Network → Rs.M (List Allowable))
+    (ie : IM → List (List Nat × PS)) (pre : PM → List (List Nat))
+    (restore : List (List Nat × PS) → List (List Nat × PS) → List (List Nat) → Nat → FnKvvPersist.CoreVelocityControl →
+      FnKvvPersist.CoreVelocityControl → Nat → List Allowable → FnPersistModel.NodeState IM PM)
+    (st : FnPersistModel.NodeState IM PM) (key : String) (r : Nat) (value suf b : List Nat) (nid : PublicKey)
+    (entry : FnKvvPersist.NodeEntry) (ver : Nat) (net : Network) (al : List Allowable)
+    (hser : ser (entryK (FnPersistModel.NodeStateEntry.«from» ie pre st)) = .ok b)
+    (hfmt : ∀ e, ser e = .ok b → deState b = .ok e)
+    (hpre : getp (("node/entry" : String) ++ "/") = .ok [(key, (r, value))]) (hne : value.isEmpty = false)
+    (hsuf : suffix (("node/entry" : String) ++ "/") key = .ok suf) (hpk : fromSlice suf = some nid)
+    (hde : deNode value = .ok entry) (hget : get (mk "node/state" (sz nid)) = .ok (some (ver, b)))
+    (hnet : parse entry.network = .ok net) (hal : ral nid net = .ok al) :
+    ∃ vc fvc : FnKvvPersist.CoreVelocityControl,
+      coreP vc = st.velocity_control ∧ coreP fvc = st.fee_velocity_control ∧
+      FnKvvPersist.KVVPersister.get_nodes getp suffix fromSlice deNode sz mk get deState parse ral restore self
+        = .ok [(nid, { key_derivation_style := entry.key_derivation_style, network := entry.network,
+                       state := restore (ie st.invoices) (ie st.issued_invoices) (pre st.payments) 0 vc fvc
+                                  st.dbid_high_water_mark al })] := by
+  have h := (C11_fn_kvv_node_roundtrip sz mk put get self getp suffix fromSlice deNode ser deState parse ral
+    (fun s : FnPersistModel.NodeState IM PM => entryK (FnPersistModel.NodeStateEntry.«from» ie pre s)) restore st key r value suf b nid
+    entry ver net al hser hfmt hpre hne hsuf hpk hde hget hnet hal).2
+  exact ⟨FnKvvPersist.CoreVelocityControl.«from» (vcK (FnPersistModel.VelocityControl.«from» st.velocity_control)),
+    FnKvvPersist.CoreVelocityControl.«from» (vcK (FnPersistModel.VelocityControl.«from» st.fee_velocity_control)), rfl, rfl, h⟩
+
+end NodeEndToEnd
 end VlsModel.Props.C11Fn
